@@ -21,7 +21,9 @@ use crate::p_escape::hex;
 use crate::rng::Rng;
 
 fn gen_line(r: &mut Rng) -> Vec<u8> {
-    match r.below(46) {
+    match r.below(52) {
+        // lines the generator guards (first character as an escape sequence), with backslashes, tabs and the (no-eol) ending in the rest
+        46 => b"$ dir C:\\temp\\new".to_vec(), 47 => b"> a\\tb".to_vec(), 48 => b"$ x (no-eol)".to_vec(), 49 => b"> \t (no-eol)".to_vec(), 50 => b"$ \\".to_vec(), 51 => "> caf\u{e9} \\n".as_bytes().to_vec(),
         0 => b"foo (glob)".to_vec(), 1 => b"a (?)".to_vec(), 2 => b"x ()".to_vec(), 3 => b"[1]".to_vec(), 4 => b"[256]".to_vec(), 5 => b"$ x".to_vec(), 6 => b"> x".to_vec(),
         7 => b"```".to_vec(), 8 => b"````scrut".to_vec(), 9 => b"".to_vec(), 10 => b"  ".to_vec(), 11 => b"\t".to_vec(), 12 => b"# hash".to_vec(), 13 => b"a\tC:\\temp".to_vec(),
         14 => b"\x1b[1mbold\x1b[0m".to_vec(), 15 => vec![0, 1, 2], 16 => vec![0xff, 0xfe, b'x'], 17 => "é 😂".as_bytes().to_vec(), 18 => b"back\\slash".to_vec(),
